@@ -314,7 +314,7 @@ def run(chk):
                   'factories': 'one call-mutate-call step from arbitrary earlier history (inductive); containers are plain dict/list/set so aliasing is concrete'}
     chk.stubs = ['scipp -> symsc with buffer identities, a write log (in-place operators, out=, setitem, value/values/unit setters) and a conversion log']
     chk.axioms = []
-    chk.assumptions = ['models, fitting, absorption, chopper and io entry points are covered by the no-write obligations of C16, C17, C18, C11, C13',
+    chk.assumptions = ['models, fitting, chopper and io entry points are covered by the no-write obligations of C16, C17, C11, C13; absorption: constructor, center, volume, beam_intersection here, quadrature and transmission map in C18',
                        'factory obligations are decided on concrete object graphs (trivial for the solver)']
 
 
